@@ -43,12 +43,12 @@ RULE = ("one case = one dataset, evaluated under every scheme of the tier's sche
         "ints, strings, integer-like strings, mixed), 5 datasets built with keep_element_types=True where 1 and '1' are "
         "different elements, 16 schemes (incl. two near-tie schemes, tie cost 1 +- 2**-33 (unifying x1, x2, x1/4; three schemes proportional "
         "to unifying on B only; presets; generic / boundary schemes). thorough: R(3) m<=3, R(4) m<=2 (datasets of 3 "
-        "rankings and those over 4 names under a rotating window of 9 of the 27 schemes), 4000 samples n<=6, m<=5 "
+        "rankings and those over 4 names under a rotating window of 9 of the 27 schemes), 20000 samples n<=6, m<=5 "
         "under all 27 schemes. Non-trivial = universe of >= 2 elements (at least one pair is scored); distinct = "
         "distinct (dataset, scheme) pair.")
 SCOPE = {"quick": "all datasets n<=3 m<=2 (701) + 400 sampled n<=5 m<=4; 14 schemes; both flag values",
          "thorough": "all datasets n<=3 m<=2 x 27 schemes; n<=3 m=3 (17.6k) and n=4 m<=2 (21.9k) x 9 rotating "
-                     "schemes; 4000 sampled n<=6 m<=5 x 27 schemes; both flag values"}
+                     "schemes; 20000 sampled n<=6 m<=5 x 29 schemes; both flag values"}
 EXHAUSTIVE = {"quick": False, "thorough": False}
 CHUNK = 4
 
@@ -82,7 +82,7 @@ def gen_cases(tier, seed):
                 idx += 1
     rng = random.Random(seed * 104729 + 10)
     kinds = list(D.NAME_KINDS)
-    count = 400 if quick else 4000
+    count = 400 if quick else 20000
     seen = set()
     for i in range(count):
         d = D.random_dataset(rng, 5 if quick else 6, 4 if quick else 5,
